@@ -55,10 +55,37 @@ func (l *CompiledLoader) Exists(name string) bool {
 
 // LoadCompiled loads a compiled template from file and registers it with the engine
 func (l *CompiledLoader) LoadCompiled(engine *Engine, name string) error {
-	// The Load method of this loader already handles reading the compiled template
-	// Just force a load of the template by the engine
-	_, err := engine.Load(name)
-	return err
+	// Read this loader's file for the name and register its content with the
+	// engine (asking the engine to load the name would consult the engine's
+	// own cache and loaders, which may not know this loader at all)
+	data, err := os.ReadFile(filepath.Join(l.directory, name+l.fileExtension))
+	if err != nil {
+		if os.IsNotExist(err) {
+			return fmt.Errorf("%w: compiled template file not found: %s", ErrTemplateNotFound, name)
+		}
+		return fmt.Errorf("failed to read compiled template file: %w", err)
+	}
+	compiled, err := DeserializeCompiledTemplate(data)
+	if err != nil {
+		return fmt.Errorf("failed to deserialize compiled template: %w", err)
+	}
+	compiled.Name = name
+	template, err := LoadFromCompiled(compiled, engine.environment, engine)
+	if err != nil {
+		return err
+	}
+
+	// The template comes from this loader's file: remember that, so that
+	// auto-reload notices when the file is replaced or removed, as it does
+	// for a template the engine loaded through this loader itself
+	modified, err := l.GetModifiedTime(name)
+	if err != nil {
+		return err
+	}
+	template.loader = l
+	template.lastModified = modified
+	engine.RegisterTemplate(name, template)
+	return nil
 }
 
 // SaveCompiled saves a compiled template to file
@@ -140,9 +167,9 @@ func (l *CompiledLoader) LoadAll(engine *Engine) error {
 			continue
 		}
 
-		// Check if it's a compiled template file
-		ext := filepath.Ext(file.Name())
-		if ext == l.fileExtension {
+		// Check if it's a compiled template file (the extension has two parts,
+		// ".twig.compiled": filepath.Ext would only see the last one)
+		if ext := l.fileExtension; strings.HasSuffix(file.Name(), ext) {
 			// Get the template name (filename without extension)
 			name := file.Name()[:len(file.Name())-len(ext)]
 			LogInfo("Loading compiled template: %s", name)
